@@ -387,6 +387,27 @@ def hist_case(desc: dict, rng, n: int, p: float, tag="random") -> Case:
     return Case(_cfg(desc), ops, desc, tag)
 
 
+def hist_heavy_case(desc: dict, rng, n: int, tag="random-heavy") -> Case:
+    """(nearly) all ways add (nearly) maximal samples in the same cycle: the per-cycle total of the samples needs
+    sample_width + ceil(log2 ways) bits - exercises the full-precision sum over the ways"""
+    mx = 2 ** desc["sw"] - 1
+
+    def one():
+        r = rng.random()
+        if r < 0.08:
+            return None
+        if r < 0.55:
+            return mx
+        if r < 0.75:
+            return max(mx - 1, 0)
+        if r < 0.85:
+            return 0
+        return rng.randrange(mx + 1)
+
+    ops = [_cyc(desc, "s", one) for _ in range(n)]
+    return Case(_cfg(desc), ops, desc, tag)
+
+
 # former F3 witnesses (IndexError at elaboration before the repair) - always run
 F3_WITNESSES = [
     {"tagkind": "list", "tags": [2, 4]},
@@ -470,6 +491,18 @@ def gen_cases(ctx: Check) -> dict[str, list[Case]]:
         hists.append(Case(_cfg(d), dops, d, "directed"))
         for p in (0.4, 0.9):
             hists.append(hist_case(d, rng, n, p))
+    # ---- many ways (in particular not a power of two) all adding near-maximal samples in one cycle; the sum register is
+    #      wide enough (rw > sw + log2 ways) for a lost carry of the per-cycle total to be visible
+    hw = [(4, 4, 8, 3), (3, 3, 8, 5), (5, 2, 6, 6), (4, 3, 32, 7), (3, 1, 5, 3), (4, 4, 9, 4)]
+    if ctx.thorough:
+        hw += [(4, sw, sw + 5, ways) for sw in (1, 2, 3, 5) for ways in (2, 3, 5, 6, 7, 8, 9)]
+    for nb, sw, rw, ways in hw:
+        d = {"component": "HwExpHistogram", "n": nb, "sw": sw, "rw": rw, "ways": ways}
+        mx = 2**sw - 1
+        dops = ["cyc s=" + _opt([mx] * ways)] * 3 + ["cyc s=" + _opt([max(mx - 1, 0)] * ways)]
+        dops += ["cyc s=" + _opt([mx] * k + [None] * (ways - k)) for k in range(1, ways + 1)] + ["cyc s=" + _opt([None] * ways)]
+        hists.append(Case(_cfg(d), dops, d, "directed-heavy"))
+        hists.append(hist_heavy_case(d, rng, ctx.pick(60, 400)))
     # ---- two callers per way (two transactions competing for the same exclusive method incr[k] / add[k])
     multi = []
     mc = [{"component": "HwCounter", "w": 3, "ways": 1}, {"component": "HwCounter", "w": 4, "ways": 3},
@@ -494,6 +527,9 @@ def more_cases(case: Case, rng):
     f = {"HwCounter": counter_case, "TaggedCounter": tagged_case, "HwExpHistogram": hist_case}[d["component"]]
     for _ in range(30):
         yield f(d, rng, 200, rng.choice([0.3, 0.6, 0.9]), "search")
+    if d["component"] == "HwExpHistogram":
+        for _ in range(10):
+            yield hist_heavy_case(d, rng, 100, "search")
 
 
 def nontrivial(case: Case, out: list[str]) -> bool:
